@@ -302,19 +302,11 @@ def withObserver {γ : Type} (ctl : Controller γ) (o : Flags) : Controller γ :
       | r => r
     endTag := fun g n => ((ctl.endTag g n).1, Flags.union (ctl.endTag g n).2 o) }
 
-/-- **C06_independence (statement, not proved).** For the dispatcher-level run of an observing
-controller `ctl` and of `withObserver ctl o` on the same input and chunking, the sink bytes are equal
-and the tokens `ctl` asked for are delivered identically. The proved ingredients are
-`C06_scan_lex_simulation` (same table states, same tag events), `C06_boundary_agreement`,
-`C06_switch_*` and C01 (sink bytes = input for both runs); the missing part is the dispatcher-level
-induction over mode switches (re-lexing of the hinted tag, `got_flags_from_hint`). The executable
-oracle of lane `lex` (`C06:events-differ`, `C06:output-differs`) checks it on the implementation. -/
-def C06_independence_statement : Prop :=
-  ∀ (γ : Type) (w : World γ) (o : Flags) (g : γ) (cfg : Settings) (chunks : List Bytes),
-    Observing w.ctl →
-    let w' : World γ := { w with ctl := withObserver w.ctl o }
-    let run (w : World γ) := chunks.foldl (fun (r : Rewriter γ) c => (r.write w c).1) { stream := Stream.new w g cfg }
-    (run w).poisoned = false → (run w').poisoned = false →
-    sinkBytes (run w).sink = sinkBytes (run w').sink
+/-- (The independence claim itself — statement `C06_independence_statement`, the proved part
+`C06_independence_partial` — is in `Thm/C06_Indep.lean`, over the faithful controller
+`Model.withObs`; `withObserver` above hands the observers' tokens to `H`'s token handler and is only
+adequate for observer-only `H`.) -/
+theorem C06_withObserver_initial {γ : Type} (ctl : Controller γ) (o : Flags) (g : γ) :
+    (withObserver ctl o).initialFlags g = Flags.union (ctl.initialFlags g) o := rfl
 
 end LolHtml.Thm.C06
